@@ -226,4 +226,13 @@ def chunks (n chunk : Nat) : List (Nat × Nat) := chunksFrom n chunk n 0
 /-- the number of results Map waits for: `for r := 0; r*chunk < n; r++` -/
 def chunkCount (n chunk : Nat) : Nat := (chunksFrom n chunk n 0).length
 
+/-- executable statement of "the chunks partition `[0, n)`": in order they start where the
+    previous one ended, none is empty, the last ends at `n` -/
+def tiles (n : Nat) : Nat → List (Nat × Nat) → Bool
+  | pos, [] => pos == n
+  | pos, (a, b) :: rest => a == pos && a < b && tiles n b rest
+
+/-- the sub-slice `xs[a:b]` -/
+def slice {α : Type} (xs : List α) (p : Nat × Nat) : List α := (xs.drop p.1).take (p.2 - p.1)
+
 end Biogo.Processor
